@@ -3,6 +3,7 @@
 package c01node
 
 import (
+	"math/rand"
 	"encoding/json"
 	"fmt"
 	"os"
@@ -53,6 +54,10 @@ type world struct {
 	blocks   [][]byte // blocks[i] = block of height i+1
 	refD     []chainkit.Digest
 	srih     bool
+	smallMTB bool
+	refFlat    [][]item   // C03: flat storage after block i+1
+	refScripts [][][]byte // C03: read-only scripts evaluated live at height i+1
+	rnd        *rand.Rand
 }
 
 func (w *world) hook(node func(*config.Blockchain)) func(*config.Blockchain) {
@@ -77,7 +82,19 @@ func (w *world) ensure(t *testing.T, h uint32, tr *vh.Trace) error {
 		w.blocks = append(w.blocks, raw)
 		d := chainkit.Compute(w.ref)
 		w.refD = append(w.refD, d)
-		tr.Emit(map[string]any{"event": "ref", "h": b.Index, "digest": d, "ntx": len(b.Transactions)})
+		ev := map[string]any{"event": "ref", "h": b.Index, "digest": d, "ntx": len(b.Transactions)}
+		if c03() {
+			fl := flat(w.ref)
+			sc := w.scripts()
+			var rs []string
+			for _, s := range sc {
+				rs = append(rs, runScript(w.ref, s, 0))
+			}
+			w.refFlat = append(w.refFlat, fl)
+			w.refScripts = append(w.refScripts, sc)
+			ev["flat"], ev["results"] = fl, rs
+		}
+		tr.Emit(ev)
 	}
 	return nil
 }
@@ -133,7 +150,7 @@ func runWorld(t *testing.T, res *vh.Result, tr *vh.Trace, wi int, sched []step, 
 		t.Fatal(err)
 	}
 	defer os.RemoveAll(dir)
-	w := &world{net: chainkit.NewNet(5, 3), srih: srih}
+	w := &world{net: chainkit.NewNet(5, 3), srih: srih, smallMTB: smallMTB, rnd: vh.Rand(int64(1000 + wi))}
 	w.protocol = func(c *config.Blockchain) {
 		c.StateRootInHeader = srih
 		if smallMTB {
@@ -197,6 +214,11 @@ func runWorld(t *testing.T, res *vh.Result, tr *vh.Trace, wi int, sched []step, 
 			r.h++
 			r.lastD = chainkit.Compute(r.bc)
 			ev["h"], ev["digest"] = r.h, r.lastD
+			if c03() {
+				tr.Emit(ev)
+				ev = nil
+				w.observe(tr, r)
+			}
 		case "flush":
 			if !r.up {
 				continue
@@ -246,7 +268,9 @@ func runWorld(t *testing.T, res *vh.Result, tr *vh.Trace, wi int, sched []step, 
 		default:
 			continue
 		}
-		tr.Emit(ev)
+		if ev != nil {
+			tr.Emit(ev)
+		}
 		res.Count([]any{wi, len(done), s.Op, s.R})
 	}
 	res.Traces++
@@ -274,5 +298,54 @@ func TestDriver(t *testing.T) {
 	t.Log(string(b))
 	if err := res.Write(); err != nil {
 		t.Fatal(err)
+	}
+}
+
+// retained reports whether replica r at height h must still have the state of height hh.
+func (w *world) retained(r *replica, hh uint32) bool {
+	if hh == r.h {
+		return true
+	}
+	switch r.cfg.Name {
+	case "r1":
+		return true
+	case "r3":
+		mtb := uint32(1000)
+		if w.smallMTB {
+			mtb = 24
+		}
+		return hh+mtb >= r.h
+	}
+	return false // KeepOnlyLatestState: only the current state
+}
+
+// observe records the C03 observations of replica r at its current height.
+func (w *world) observe(tr *vh.Trace, r *replica) {
+	who := r.cfg.Name + "/" + r.cfg.Backend
+	hs := []uint32{r.h}
+	for n := 0; n < 2 && r.h > 1; n++ {
+		hh := 1 + uint32(w.rnd.Intn(int(r.h-1)))
+		if w.retained(r, hh) {
+			hs = append(hs, hh)
+		}
+	}
+	for i, hh := range hs {
+		sr, err := r.bc.GetStateRoot(hh)
+		if err != nil {
+			tr.Emit(map[string]any{"event": "noroot", "r": who, "at": r.h, "h": hh})
+			continue
+		}
+		if i == 0 || w.rnd.Intn(2) == 0 {
+			tr.Emit(map[string]any{"event": "trie", "r": who, "at": r.h, "h": hh, "items": trieContent(r.bc, sr.Root)})
+		}
+		probes(tr, w.rnd, who, r.bc, hh, sr.Root, w.refFlat[hh-1])
+		if i > 0 || r.cfg.Name == "r1" || r.cfg.Name == "r3" {
+			// historic invocation against root hh (next block hh+1) must give what the live node gave at hh
+			var rs []string
+			for _, s := range w.refScripts[hh-1] {
+				rs = append(rs, runScript(r.bc, s, hh+1))
+			}
+			tr.Emit(map[string]any{"event": "historic", "r": who, "at": r.h, "h": hh, "results": rs})
+		}
 	}
 }
